@@ -101,6 +101,7 @@ type attemptScript struct {
 	grpcStat  string
 	early     bool // 103 Early Hints before the final status
 	closeBody bool // the handler closes the request body when done with it (http.Transport always does)
+	tryHijack bool // the handler first tries to take over the connection; the client's writer refuses or cannot, and it answers normally
 	abort     bool // after its writes the handler aborts with panic(http.ErrAbortHandler), as a reverse proxy does when the backend breaks off
 }
 
@@ -119,19 +120,21 @@ type attemptSeen struct {
 }
 
 type exchange struct {
-	method     string
-	url        string
-	header     http.Header
-	bodyLen    int
-	chunked    bool
-	unframed   bool // with chunked: no declared length and no chunked encoding either
-	breakAfter int  // the client goes away after that many response body bytes (-1: stays)
-	reader     *faultyReader
-	cancelled  bool
-	scripts    []attemptScript
-	seen       []attemptSeen
-	rec        *simkit.Recorder
-	panicked   any
+	method        string
+	url           string
+	header        http.Header
+	bodyLen       int
+	chunked       bool
+	unframed      bool   // with chunked: no declared length and no chunked encoding either
+	breakAfter    int    // the client goes away after that many response body bytes (-1: stays)
+	writerKind    string // "", "hijack-refused" (HTTP/2, an already hijacked connection), "plain" (no Hijacker at all)
+	hijackGranted bool
+	reader        *faultyReader
+	cancelled     bool
+	scripts       []attemptScript
+	seen          []attemptSeen
+	rec           *simkit.Recorder
+	panicked      any
 }
 
 // payload byte of attempt a
@@ -187,6 +190,13 @@ func (ex *exchange) handler() http.Handler {
 			}
 		}
 		ex.seen = append(ex.seen, seen)
+		if sc.tryHijack {
+			if hj, ok := w.(http.Hijacker); ok {
+				if conn, _, err := hj.Hijack(); err == nil && conn != nil {
+					ex.hijackGranted = true
+				}
+			}
+		}
 		if sc.closeBody && req.Body != nil {
 			_ = req.Body.Close()
 		}
@@ -277,9 +287,16 @@ func (ex *exchange) request() *http.Request {
 func (ex *exchange) run(b *buffer.Buffer) {
 	ex.rec = simkit.NewRecorder()
 	ex.rec.BreakAfter = ex.breakAfter
+	var cw http.ResponseWriter = ex.rec
+	switch ex.writerKind {
+	case "hijack-refused":
+		ex.rec.RefuseHijack = true
+	case "plain":
+		cw = simkit.Plain{R: ex.rec}
+	}
 	func() {
 		defer func() { ex.panicked = recover() }()
-		b.ServeHTTP(ex.rec, ex.request())
+		b.ServeHTTP(cw, ex.request())
 	}()
 }
 
